@@ -8,6 +8,7 @@ and time, and every returned field must equal the root's field multiplied by the
 The (M, L, T, Theta) exponent table (xpmc/x_C08_dims.py) is written from the documented equations and is checked at the start
 of every task for dimensional homogeneity of those equations (failure = harness error, not a violation).
 """
+import contextlib
 import math
 
 import numpy as np
@@ -32,8 +33,9 @@ LEVEL_NOTE = ("trusted: numpy, the exponent table of xpmc/x_C08_dims.py (self-ch
               "task), the memoised Guderley exponent; assumed: scale factors outside the explored words (factors 1/343..4096 per dimension) and "
               "configurations beyond one deviation are not seen; Noh2's time and Guderley's length/time units are fixed by their documentation "
               "(collapse time 1; r_s = (-t_L)^(1/lambda), t = 0.750024322 (t_L + 1)) so only the unit changes that keep those constants are applied")
-BOUND = {"quick": "words of length <= 2 over the generators, roots = default + one-deviation configurations",
-         "thorough": "words of length <= 3 over the generators, roots = default + one-deviation configurations"}
+BOUND = {"quick": "words of length <= 2 over the generators, roots = default + one-deviation configurations (two-deviation for Rod1D and Guderley)",
+         "thorough": "words of length <= 3 over the generators, roots = default + one-deviation configurations (two-deviation for the closed-form "
+                     "families, IGEOS, Rod1D and Guderley)"}
 RULE = ("tasks = roots (family x configuration with <= 1 deviation x time); states = orbit-graph nodes (canonical scale vectors), transitions = "
         "generator applications; an evaluation is one public solver call (one per node + the calls used to locate fronts at the root); a "
         "case (root, node, field) is non-trivial when the field's expected factor at the node differs from 1 and the root field has a finite "
@@ -50,6 +52,8 @@ ASSUMPTIONS = [
 ]
 
 DEPTH = {"quick": 2, "thorough": 3}
+CHEAP = {"Noh", "Noh2", "IGEOS", "EHEP", "Mader", "Kenamond1", "Kenamond2", "Kenamond3", "CylindricalExpansion", "Blake", "EPpiston",
+         "Hutchens1"} | {"Cog%d" % n for n in (1, 2, 3, 4, 5, 6, 7, 8, 9, 11, 12, 18, 19, 20, 21)}
 GEN = {"M": [("M*2", 2.0), ("M/5", 0.2)], "L": [("L*10", 10.0), ("L/3", 1.0 / 3.0)], "T": [("T*4", 4.0), ("T/7", 1.0 / 7.0)],
        "Th": [("Th*5", 5.0)], "LT": [("LT*2", 2.0), ("LT/3", 1.0 / 3.0)]}
 FLOOR = 1e-3          # |a-b| <= tol * (max(|a|,|b|) + FLOOR * S), S = largest magnitude of the field over the profile
@@ -64,11 +68,25 @@ def preimport():
     from xpmc import hydro_more  # noqa: F401
 
 
+def _only():
+    """Development aid (never set by the registered commands): XPMC_ONLY_FAMILIES=a,b restricts the run; the evidence is then marked capped."""
+    import os
+    v = os.environ.get("XPMC_ONLY_FAMILIES", "")
+    return [x for x in v.split(",") if x]
+
+
 def tasks(tier, seed):
     out = []
     for name in D.ORDER:
+        if _only() and name not in _only():
+            continue
         f = D.FAMS[name]
-        alpha, devs = D.roots(f, f.get("rootK", 1))     # Rod1D: two deviations (BC type x non-homogeneous data interact)
+        # Rod1D, Guderley: two deviations in both tiers (BC type x non-homogeneous data, (geometry, gamma) x time interact);
+        # thorough: two deviations for every closed-form family and IGEOS (milliseconds per call)
+        K = f.get("rootK", 1)
+        if tier == "thorough" and name in CHEAP:
+            K = 2
+        alpha, devs = D.roots(f, K)
         for dev in devs:
             out.append({"family": name, "dev": dev, "depth": DEPTH[tier]})
     return out
@@ -106,13 +124,45 @@ def sig_of(node):
     return "+".join(k for k in ("M", "L", "T", "Th", "a") if k in node and abs(node[k] - 1.0) > 1e-9) or "identity"
 
 
-def abs_xtol_bound(scale, ref):
-    """Relative error that the Riemann solvers' *absolute* root-finder tolerances (scipy bisect xtol=2e-12 on pressure/density,
-    vode atol=1e-12 on density and velocity) explain at this node: 10 * 1e-12 / (smallest state magnitude in node units)."""
-    sr = D.factor(scale, D.RHO) * ref["rho"]
-    sp = D.factor(scale, D.PRES) * ref["p"]
-    su = D.factor(scale, D.VEL) * ref["c"]
-    return 10.0 * 1e-12 * max(1.0 / sr, 1.0 / sp, 1.0 / su)
+def abs_xtol_bound(ref):
+    """Relative accuracy (w.r.t. the field scale S) that the Riemann solvers' absolute root-finder tolerances (scipy bisect xtol=2e-12 on
+    pressure/density, vode atol=1e-12 on density and velocity) give *in the root's own units*: 10 * 1e-12 / (smallest state magnitude)."""
+    return 10.0 * 1e-12 * max(1.0 / ref["rho"], 1.0 / ref["p"], 1.0 / ref["c"])
+
+
+@contextlib.contextmanager
+def riemann_tolerances_in_node_units(scale):
+    """Reduced oracle for the recorded finding 'riemann-absolute-root-tolerances': the solver's hard-wired absolute tolerances (bisect's default
+    xtol=2e-12 on the pressure and density brackets, vode's atol=int_tol on (rho, u)) are re-expressed in the node's units, nothing else changes.
+    A disagreement that disappears under this context is explained by those constants; one that stays is something else."""
+    import types
+    import scipy.integrate
+    import scipy.optimize
+    import exactpack.solvers.riemann.riemann as RR
+    import exactpack.solvers.riemann.utils as RU
+    sp, sr, su = D.factor(scale, D.PRES), D.factor(scale, D.RHO), D.factor(scale, D.VEL)
+    real = scipy.optimize.bisect
+
+    def bisect_p(f, a, b, *args, **kw):
+        kw.setdefault("xtol", 2e-12 * sp)
+        return real(f, a, b, *args, **kw)
+
+    def bisect_r(f, a, b, *args, **kw):
+        kw.setdefault("xtol", 2e-12 * sr)
+        return real(f, a, b, *args, **kw)
+
+    class Ode(scipy.integrate.ode):
+        def set_integrator(self, name, **kw):
+            if "atol" in kw and np.isscalar(kw["atol"]):
+                kw["atol"] = [kw["atol"] * sr, kw["atol"] * su]
+            return super().set_integrator(name, **kw)
+    old = (RR.bisect, RU.bisect, RU.scipy)
+    RR.bisect, RU.bisect = bisect_p, bisect_r
+    RU.scipy = types.SimpleNamespace(integrate=types.SimpleNamespace(ode=Ode))
+    try:
+        yield
+    finally:
+        RR.bisect, RU.bisect, RU.scipy = old
 
 
 def run_task(task):
@@ -203,6 +253,7 @@ def run_task(task):
                                           "value": 1.0, "tol": 0.0, "detail": {"word": word, "exception": "%s: %s" % (type(ex).__name__, str(ex)[:200])}})
             continue
         res["evals"] += 1
+        out_red = None
         flipped = (side(out) != side_root) if side else np.zeros(len(pts), bool)
         for n in names:
             a = np.asarray(out[n], float)
@@ -230,10 +281,19 @@ def run_task(task):
             clause = "scale:" + n
             tol_used = tol
             if ref is not None:
-                with np.errstate(all="ignore"):
-                    excess = np.abs(a - b) - tol * (np.maximum(np.abs(a), np.abs(b)) + floor * S) - abs_xtol_bound(scale, ref) * S
-                if not (np.nan_to_num(excess, nan=1.0)[bad] > 0).any():
-                    clause, tol_used = "scale-abs-xtol:" + n, tol     # explained by the absolute root-finder tolerances (recorded finding)
+                if out_red is None:
+                    try:
+                        with riemann_tolerances_in_node_units(scale):
+                            out_red = call(D.build(f, kw), pts_n, t_n)
+                        res["evals"] += 1
+                    except Exception:
+                        out_red = False
+                if out_red is not False:
+                    ar = np.asarray(out_red[n], float)
+                    with np.errstate(all="ignore"):
+                        excess = np.abs(ar - b) - tol * (np.maximum(np.abs(ar), np.abs(b)) + floor * S) - abs_xtol_bound(ref) * S
+                    if not (np.nan_to_num(excess, nan=1.0)[bad] > 0).any():
+                        clause, tol_used = "scale-abs-xtol:" + n, tol      # explained by the absolute root-finder tolerances (recorded finding)
             for cl, sel, clz in [(c_, bad & (classes == c_) & ~flipped, clause) for c_ in sorted(set(classes[bad & ~flipped]))] + \
                                [(c_, bad & (classes == c_) & flipped, "scale-front:" + n) for c_ in sorted(set(classes[bad & flipped]))]:
                 k_ = (clz, cl, sig)
@@ -269,8 +329,9 @@ def run_task(task):
 
 
 def postprocess(agg, tier):
+    extra = {"capped": True, "restricted_to_families": _only()} if _only() else {}
     worst = {}
     for tsk, r in zip(agg["task_list"], agg["results"]):
         if r:
             worst[tsk["family"]] = max(worst.get(tsk["family"], 0.0), r.get("worst", 0.0))
-    return {"worst_mismatch_by_family": {k: float("%.3g" % v) for k, v in sorted(worst.items())}}
+    return dict(extra, **{"worst_mismatch_by_family": {k: float("%.3g" % v) for k, v in sorted(worst.items())}})
